@@ -283,7 +283,8 @@ func encCase(g *hc.Gen, o *hc.Out) {
 	if err == nil {
 		impl = hexTok(b)
 	} else if len(b) > 0 {
-		lawFail(o, "refuse:"+fmtName(f)+":partial_output", map[string]interface{}{"op": line, "emitted_bytes": len(b), "error": err.Error()})
+		_, why := refusalExpected(t, op, false)
+		lawFail(o, "refuse:"+fmtName(f)+":"+partialOutputLaw(t, op, why, b), map[string]interface{}{"op": line, "sink": "EncodeView into a buffer", "emitted_bytes": len(b), "emitted_hex": clipHex(b), "error": err.Error()})
 	}
 	o.Case(line, impl)
 	o.Count("enc:" + fmtName(f))
@@ -532,6 +533,11 @@ func sqlLit(p value.Primary) (string, bool) {
 // the table built by DECLARE VIEW + INSERT, the result written by the processor itself (including
 // the ending line break).  ok=false when the table cannot be built through SQL text.
 func writeViaProc(dir string, t *table, o opts) (data []byte, err error, ok bool) {
+	return writeViaProcSink(dir, t, o, false)
+}
+
+// writeViaProcSink: toStdout = no --out file, the result goes to the session's stdout
+func writeViaProcSink(dir string, t *table, o opts, toStdout bool) (data []byte, err error, ok bool) {
 	var sb strings.Builder
 	hs := make([]string, len(t.header))
 	for i, h := range t.header {
@@ -594,6 +600,11 @@ func writeViaProc(dir string, t *table, o opts) (data []byte, err error, ok bool
 	must(tx.SetFlag(option.StripEndingLineBreakFlag, o.strip))
 	if o.format == option.FIXED {
 		must(tx.SetFlag(option.ExportDelimiterPositionsFlag, posString(o.positions, o.singleLine)))
+	}
+	if toStdout {
+		var so string
+		so, err = p.Exec("SELECT * FROM t")
+		return []byte(so), err, true
 	}
 	var buf bytes.Buffer
 	tx.Session.SetOutFile(&buf)
@@ -898,10 +909,13 @@ func main() {
 			lawFail(o, "roundtrip:csv:linebreak_in_cell", map[string]interface{}{"probe": "EncodeView(CSV) of the cells \"x\\ny\", \"r\\rs\" is not a,b / \"x\\ny\",\"r\\rs\": fields containing CR/LF are not quoted"})
 		}
 		corpus(o, scratch)
+		refuseMatrix(o, scratch)
 		for i := 0; i < n; i++ {
 			switch k := i % 10; {
 			case i%20 == 19:
 				bigCase(g, o, scratch)
+			case i%20 == 9:
+				refuseCase(g, o, scratch)
 			case k < 3:
 				encCase(g, o)
 			case k < 6:
